@@ -17,10 +17,14 @@ register("C01", "exploration",
          [SeqPart("C01", focus=["kind:file", "kind:mem", "kind:bytesio", "kind:bufreader", "kind:path", "kind:str"])])
 
 register("C02", "exploration",
-         SEQ_RULE + "; focus = store_object naming an additional/checksum algorithm or get_hex_digest",
+         SEQ_RULE + "; focus = store_object naming an additional/checksum algorithm or get_hex_digest. Second part "
+         "(conc-algo): the C07 multi-task scenarios with additional / checksum algorithms on every store_object; a "
+         "history that is linearizable except for a reported digest map belongs to C02 (the map must not depend on "
+         "what another thread did)",
          COMMON_ASSUME + ["accepted spellings = strings the documented normalisation rule maps to a supported name"],
          30, 420,
-         [SeqPart("C02", focus=["algo-arg", "op:hexdigest"])])
+         [SeqPart("C02", focus=["algo-arg", "op:hexdigest"], weight=2.0),
+          ConcPart("C02", "objalgo", name="conc-algo", weight=1.0)])
 
 register("C03", "exploration",
          SEQ_RULE + "; focus = a store_object/tag_object on an already bound pid (rejected re-bind)",
